@@ -255,10 +255,6 @@ package storage
 //@ func dragonboat.(*NodeHost).ID
 //@   assumed
 //@   modifies nothing
-//@ func table.NewManager
-//@   assumed
-//@   ensures result != nil && fresh(result) && result.nh == nh && result.store == store
-//@   modifies nothing
 //@ func logreader.NewShardCache
 //@   assumed
 //@   ensures result != nil && fresh(result)
